@@ -29,6 +29,7 @@ def build_server(max_pdu=16384):
                     d = pydicom.Dataset()
                     d.PatientID = '%s-%d' % (tag, j)
                     d.PatientName = str(context.supported_ts)          # the transfer syntax the server believes it negotiated
+                    d.PatientComments = 'c' * (3000 if j % 2 else 10)     # some answers need several fragments under a small limit
                     yield d, statuses.C_FIND_PENDING
             return gen()
     srv = Srv('SRV', 0, supported_ts=[_u.ImplicitVRLittleEndian, _u.ExplicitVRLittleEndian, _u.ExplicitVRBigEndian],
@@ -38,6 +39,22 @@ def build_server(max_pdu=16384):
     srv.supported_scp.update({IMG: sc.storage_scp})
     srv.update_context_def_list([IMG], True)
     return srv, received
+
+
+class RecSock(object):
+    """the client's transport with everything received kept (to measure the P-DATA-TF PDUs the server sends to THIS client)"""
+
+    def __init__(self, sock):
+        self._s = sock
+        self.inbound = bytearray()
+
+    def recv(self, n):
+        d = self._s.recv(n)
+        self.inbound += d
+        return d
+
+    def __getattr__(self, name):
+        return getattr(self._s, name)
 
 
 class Leave(Exception):
@@ -59,6 +76,8 @@ def client_thread(idx, port, plan, out):
     try:
         with cli.request_association(remote) as assoc:
             res['limit'] = assoc.max_pdu_length
+            rec = assoc.dul.dul_socket = RecSock(assoc.dul.dul_socket)
+            res['rec'] = rec
             for k in range(plan['ops']):
                 if plan['abort_after'] is not None and k == plan['abort_after']:
                     raise Leave()                      # leave through an error: the association is aborted
@@ -93,6 +112,11 @@ def client_thread(idx, port, plan, out):
         pass
     except BaseException as e:  # pylint: disable=broad-except
         res['problems'].append('client raised %r' % (e,))
+    rec = res.pop('rec', None)
+    if rec is not None and plan['max_pdu']:
+        big = [len(b) - 6 for t, b in s3.frames(rec.inbound) if t == 4 and len(b) - 6 > plan['max_pdu']]
+        if big:
+            res['problems'].append('announced a maximum length of %d, received P-DATA-TF PDUs of up to %d bytes' % (plan['max_pdu'], max(big)))
     out[idx] = res
 
 
@@ -170,7 +194,61 @@ def ids_soak(threads, draws):
     return dups, off
 
 
+def dead_peer_case(case):
+    """one entity, several requests at once, one of them to a peer that accepts the connection and never answers: the
+    healthy associations must not wait for the dead one"""
+    import socket
+    from pynetdicom2 import applicationentity as aem, sopclass as sc
+    srv, _ = build_server(16384)
+    port = srv.server_address[1]
+    hole = socket.socket(); hole.bind(('127.0.0.1', 0)); hole.listen(8)
+    cli = aem.ClientAE('SHARED').add_scu(sc.verification_scu)
+    cli.timeout = case['timeout']
+    t0 = time.time()
+    times, errs = {}, {}
+
+    def dead():
+        try:
+            with cli.request_association({'aet': 'NOBODY', 'address': '127.0.0.1', 'port': hole.getsockname()[1]}):
+                pass
+        except BaseException as e:  # pylint: disable=broad-except
+            errs['dead'] = e
+        times['dead'] = time.time() - t0
+
+    def healthy(i):
+        try:
+            with cli.request_association({'aet': 'SRV', 'address': '127.0.0.1', 'port': port}) as assoc:
+                st = assoc.get_scu(sc.VERIFICATION_SOP_CLASS)(1)
+                if int(st) != 0:
+                    errs[i] = 'echo status %r' % int(st)
+        except BaseException as e:  # pylint: disable=broad-except
+            errs[i] = e
+        times[i] = time.time() - t0
+    with srv:
+        ths = [threading.Thread(target=dead, daemon=True)]
+        ths[0].start()
+        time.sleep(0.4)                      # the dead request is under way
+        for i in range(case['healthy']):
+            ths.append(threading.Thread(target=healthy, args=(i,), daemon=True))
+            ths[-1].start()
+        for t in ths:
+            t.join(case['timeout'] * 2 + 10)
+    hole.close()
+    bad = [i for i in range(case['healthy']) if i in errs]
+    if bad:
+        return 'healthy association %d failed: %r' % (bad[0], errs[bad[0]])
+    if 'dead' not in times:
+        return None                          # the dead request has not even given up yet: nothing to compare with
+    late = [i for i in range(case['healthy']) if times.get(i, 1e9) > times['dead'] - 1.0]
+    if late:
+        return ('%d of %d healthy associations of the same entity finished only when the request to the dead peer gave up '
+                '(%.1f s); they took %s s' % (len(late), case['healthy'], times['dead'], ', '.join('%.1f' % times.get(i, -1) for i in late)))
+    return None
+
+
 def replay(case):
+    if case.get('dead_peer'):
+        return dead_peer_case(case)
     if case.get('ids_soak'):
         dups, _ = ids_soak(case['threads'], case['draws'])
         return '; '.join(dups[:3]) or None
@@ -208,6 +286,13 @@ def run(chk):
         chk.violation('C20:ids:repeat', 'message ids repeat within a thread: ' + '; '.join(dups[:3]), soak)
     elif off:
         chk.broke('correspondence: _new_msg_id vs Dicom.C20.newMsgId', '; '.join(off[:3]), soak)
+    # one entity requesting several associations at once, one of them to a dead peer
+    dp = {'dead_peer': True, 'timeout': 6, 'healthy': 3}
+    r = dead_peer_case(dp)
+    chk.case('dead-peer', True, {'dead_peer': 'one entity, 3 healthy requests + 1 to a peer that never answers'})
+    chk.count('dead-peer')
+    if r and dead_peer_case(dp):             # a timing verdict on real threads counts only if it reproduces
+        chk.violation('C20:dead-peer', r, dp)
     rounds = [(4, 3), (16, 2), (32, 1)] if tier == 'quick' else [(4, 10), (16, 10), (32, 5), (48, 3)]
     seed = 0
     for n, reps in rounds:
